@@ -192,6 +192,17 @@ def desigPaths (root : Ty) (top : Bool) : Nat → List (List Nat) → List ITok 
 /-- may a string literal with elements of `esz` bytes initialise an array of `elem`? (p14, p15) -/
 def strFits (elem : Ty) (esz : Nat) : Bool := elem.isInteger && elem.size == (esz : Int)
 
+/-- does an initializer `tok` without braces initialise a subobject of type `t` as a whole?  a scalar always (p11); a character
+    array by a string literal (p14, p15); a struct/union by an expression of that type (p13) -/
+def stopsAt (t : Ty) (tok : ITok) : Bool :=
+  match t, tok with
+  | .scalar .., _ => true
+  | .array e _, .str _ _ esz => strFits e esz
+  | .inc e, .str _ _ esz => strFits e esz
+  | .struct .., .expr e => e.isStruct
+  | .union .., .expr e => e.isUnion
+  | _, _ => false
+
 /-- p20: where an initializer without braces lands when the cursor is at `path` -/
 def descend (root : Ty) (top : Bool) (tok : ITok) : Nat → List Nat → Except Fail (List Nat)
   | 0, _ => .error .fuel
@@ -199,14 +210,7 @@ def descend (root : Ty) (top : Bool) (tok : ITok) : Nat → List Nat → Except 
     match subTy root path with
     | none => .error (.crash "spec: bad path")
     | some t =>
-      let stop := match t, tok with
-        | .scalar .., _ => true
-        | .array e _, .str _ _ esz => strFits e esz
-        | .inc e, .str _ _ esz => strFits e esz
-        | .struct .., .expr e => e.isStruct
-        | .union .., .expr e => e.isUnion
-        | _, _ => false
-      if stop then .ok path
+      if stopsAt t tok then .ok path
       else match firstSub root top path t with
         | some k => descend root top tok f (path ++ [k])
         | none => .error (.diag "empty aggregate cannot take an initializer")
@@ -222,12 +226,28 @@ def stringValue (elem : Ty) (len? : Option Nat) (bytes : List Nat) (esz : Nat) :
       | none => Except.error (Fail.crash "spec: string element")) (List.replicate len (zeroOf elem))
   pure (.arr cs)
 
+/-- regions in which the run of the specification lies (each is monotone: once set it stays set) -/
+structure Flags where
+  over : Bool     -- a whole-subobject initializer (braces or string literal) replaced an already initialised subobject,
+                  -- or an initializer switched a union to another member after one had been initialised
+                  -- (region of known finding C05-brace-override-keeps-old)
+  xover : Bool    -- an initializer for a subobject that lies inside a struct/union which an earlier initializer of the same
+                  -- list initialised with an expression of struct/union type (6.7.9p13 followed by p19)
+  wide : Bool     -- a GNU range designator `[a ... b]` with a < b was used (no C11 semantics; chibicc re-parses the
+                  -- initializer once per designated element, the specification stores one initializer in every element)
+  deriving DecidableEq, Repr, Inhabited
+
+def Flags.none : Flags := ⟨false, false, false⟩
+def Flags.join (a b : Flags) : Flags := ⟨a.over || b.over, a.xover || b.xover, a.wide || b.wide⟩
+def Flags.clean (a : Flags) : Bool := !a.over && !a.xover && !a.wide
+
 structure Result where
   obj : Init
   rest : List ITok
-  over : Bool         -- a whole-subobject initializer (braces or string literal) replaced an already initialised subobject,
-                      -- or an initializer switched a union to another member after one had been initialised
+  fl : Flags
   deriving Inhabited
+
+def Result.over (r : Result) : Bool := r.fl.over
 
 /-- is the subobject at `path` (or a union it lies in, through another member) already initialised? -/
 def touched (obj : Init) : List Nat → Bool
@@ -248,6 +268,21 @@ def switchesUnion : Init → List Nat → Bool
     | _ => match obj.children[k]? with
       | some c => switchesUnion c p
       | none => false
+
+/-- the node carries an expression of struct/union type (p13) -/
+def hasAggExpr : Init → Bool
+  | .struct (some _) _ => true
+  | .union (some _) _ _ => true
+  | _ => false
+
+/-- does a proper ancestor of the subobject at `path` carry an expression of struct/union type? -/
+def exprAbove : Init → List Nat → Bool
+  | _, [] => false
+  | obj, k :: p =>
+    hasAggExpr obj ||
+    (match obj.children[k]? with
+      | some c => exprAbove c p
+      | none => false)
 
 /-- the cursor at the start of a brace-enclosed list: the first subobject; a scalar in braces is its own first subobject -/
 def firstCursor : Ty → Option (List Nat)
@@ -283,69 +318,81 @@ def storeTok (root : Ty) (top : Bool) (tok : ITok) (path : List Nat) (t : Ty) (o
   | .union .., .expr e => pure (old.setExpr (some e))
   | _, _ => .error (.diag "invalid initializer")
 
+/-- an array of unknown bound that never received an initializer has no elements -/
+def unflex : Init → Init
+  | .flex => .arr []
+  | o => o
+
+/-- the designation of one initializer of a list (p17): a designator list sets the cursor, otherwise the cursor stands -/
+def pathsOf (ty : Ty) (top : Bool) (cur : Option (List Nat)) (toks : List ITok) : Except Fail (List (List Nat) × List ITok) :=
+  if isDesg toks then desigPaths ty top (toks.length + 1) [[]] toks
+  else pure ((match cur with | some p => [p] | none => []), toks)
+
+/-- one initializer of a list whose designated subobjects are `paths` (`rec`: the rest of the same list) -/
+def initItemWith (rec : Ty → Bool → Init → Option (List Nat) → List ITok → Bool → Flags → Except Fail Result)
+    (ty : Ty) (top : Bool) (obj : Init) (paths : List (List Nat)) (toks : List ITok) (fl : Flags) : Except Fail Result :=
+  match paths with
+  | [] => do
+    -- excess initializer: consumed, ignored
+    let r ← skipExcess (toks.length + 1) toks
+    rec ty top obj none r false fl
+  | p0 :: _ =>
+    match toks with
+    | .lbrace :: inner => do
+      -- braces: the whole subobject at the cursor (p19: overrides; p21: the rest is zero)
+      let t ← (match subTy ty p0 with | some t => pure t | none => .error (.crash "spec: bad path") : Except Fail Ty)
+      let t := if growable ty top p0 then (match t with | .array e _ => Ty.inc e | t => t) else t
+      let sub ← rec t false (braceStart t) (firstCursor t) inner true Flags.none
+      let subObj := unflex sub.obj
+      let fl := (fl.join ⟨paths.any (touched obj), paths.any (exprAbove obj), decide (paths.length > 1)⟩).join sub.fl
+      let obj ← paths.foldlM (fun o p => modifyAt ty top (fun _ _ => pure subObj) ty [] p o) obj
+      rec ty top obj (next ty top (paths.getLast!.reverse)) sub.rest false fl
+    | tok :: r => do
+      -- no braces: descend to the subobject this initializer can initialise (p13, p14, p20)
+      let targets ← paths.mapM (fun p => descend ty top tok (p.length + ty.nodes + 2) p)
+      let isStr := match tok with | .str .. => true | _ => false
+      let fl := fl.join ⟨(isStr && targets.any (fun p =>
+            match subTy ty p with | some (.scalar ..) => false | _ => touched obj p))
+          || targets.any (switchesUnion obj), targets.any (exprAbove obj), decide (paths.length > 1)⟩
+      let obj ← targets.foldlM (fun o p => modifyAt ty top (storeTok ty top tok p) ty [] p o) obj
+      rec ty top obj (next ty top (targets.getLast!.reverse)) r false fl
+    | [] => .error (.diag "expected an expression")
+
 /-- one brace-enclosed initializer list for a current object of type `ty` whose value so far is `obj`;
     `toks` starts after the `{`; `cur` is the cursor (`none`: no subobject left); `top`: the current object is the
-    declared object itself -/
-def initList : Nat → Ty → Bool → Init → Option (List Nat) → List ITok → Bool → Bool → Except Fail Result
+    declared object itself; `fl`: the regions entered so far -/
+def initList : Nat → Ty → Bool → Init → Option (List Nat) → List ITok → Bool → Flags → Except Fail Result
   | 0, _, _, _, _, _, _, _ => .error .fuel
-  | f+1, ty, top, obj, cur, toks, first, over =>
+  | f+1, ty, top, obj, cur, toks, first, fl =>
     match toks with
-    | .rbrace :: r => .ok ⟨obj, r, over⟩
-    | .comma :: .rbrace :: r => .ok ⟨obj, r, over⟩
+    | .rbrace :: r => .ok ⟨obj, r, fl⟩
+    | .comma :: .rbrace :: r => .ok ⟨obj, r, fl⟩
     | _ => do
       let toks ← if first then pure toks else skipTok .comma "," toks
-      -- designation (p17): sets the cursor
-      let (paths, toks) ← (if isDesg toks then desigPaths ty top (toks.length + 1) [[]] toks
-                           else pure ((match cur with | some p => [p] | none => []), toks)
-                           : Except Fail (List (List Nat) × List ITok))
-      match paths with
-      | [] => do
-        -- excess initializer: consumed, ignored
-        let r ← skipExcess (toks.length + 1) toks
-        initList f ty top obj none r false over
-      | p0 :: _ =>
-        match toks with
-        | .lbrace :: inner => do
-          -- braces: the whole subobject at the cursor (p19: overrides; p21: the rest is zero)
-          let t ← (match subTy ty p0 with | some t => pure t | none => .error (.crash "spec: bad path") : Except Fail Ty)
-          let t := if growable ty top p0 then (match t with | .array e _ => Ty.inc e | t => t) else t
-          let sub ← initList f t false (braceStart t) (firstCursor t) inner true false
-          let subObj := match sub.obj with | .flex => Init.arr [] | o => o
-          let over := over || paths.any (touched obj) || sub.over
-          let obj ← paths.foldlM (fun o p => modifyAt ty top (fun _ _ => pure subObj) ty [] p o) obj
-          initList f ty top obj (next ty top (paths.getLast!.reverse)) sub.rest false over
-        | tok :: r => do
-          -- no braces: descend to the subobject this initializer can initialise (p13, p14, p20)
-          let targets ← paths.mapM (fun p => descend ty top tok (p.length + ty.nodes + 2) p)
-          let isStr := match tok with | .str .. => true | _ => false
-          let over := over || (isStr && targets.any (fun p =>
-              match subTy ty p with | some (.scalar ..) => false | _ => touched obj p))
-            || targets.any (switchesUnion obj)
-          let obj ← targets.foldlM (fun o p => modifyAt ty top (storeTok ty top tok p) ty [] p o) obj
-          initList f ty top obj (next ty top (targets.getLast!.reverse)) r false over
-        | [] => .error (.diag "expected an expression")
+      let (paths, toks) ← pathsOf ty top cur toks
+      initItemWith (initList f) ty top obj paths toks fl
 
 /-- 6.7.9 for a declared object of type `ty` with initializer `toks`: the object value, what follows the initializer, and
-    whether the initializer lies in the region `BraceOverride` -/
+    the regions the initializer lies in -/
 def initFull (ty : Ty) (toks : List ITok) : Except Fail Result :=
   match toks with
   | .lbrace :: r => do
     let start := match ty with
       | .union ms _ _ => (match nextNamed ms ms.length 0 with | some k => (newInit ty true).setMem k | none => newInit ty true)
       | _ => newInit ty true
-    let res ← initList (toks.length + 2) ty true start (firstCursor ty) r true false
-    pure { res with obj := match res.obj with | .flex => .arr [] | o => o }
+    let res ← initList (toks.length + 2) ty true start (firstCursor ty) r true Flags.none
+    pure { res with obj := unflex res.obj }
   | tok :: r =>
     -- p11 scalar, p13 struct-typed expression, p14/p15 string literal for a character array; anything else needs braces (p16)
     match ty, tok with
-    | .scalar .., _ => do pure ⟨← storeTok ty true tok [] ty (.leaf none), r, false⟩
-    | .array el _, .str _ _ esz => if strFits el esz then do pure ⟨← storeTok ty true tok [] ty .flex, r, false⟩
+    | .scalar .., _ => do pure ⟨← storeTok ty true tok [] ty (.leaf none), r, Flags.none⟩
+    | .array el _, .str _ _ esz => if strFits el esz then do pure ⟨← storeTok ty true tok [] ty .flex, r, Flags.none⟩
                                    else .error (.diag "invalid initializer")
-    | .inc el, .str _ _ esz => if strFits el esz then do pure ⟨← storeTok ty true tok [] ty .flex, r, false⟩
+    | .inc el, .str _ _ esz => if strFits el esz then do pure ⟨← storeTok ty true tok [] ty .flex, r, Flags.none⟩
                                else .error (.diag "invalid initializer")
-    | .struct .., .expr e => if e.isStruct then pure ⟨(newInit ty true).setExpr (some e), r, false⟩
+    | .struct .., .expr e => if e.isStruct then pure ⟨(newInit ty true).setExpr (some e), r, Flags.none⟩
                              else .error (.diag "invalid initializer")
-    | .union .., .expr e => if e.isUnion then pure ⟨(newInit ty true).setExpr (some e), r, false⟩
+    | .union .., .expr e => if e.isUnion then pure ⟨(newInit ty true).setExpr (some e), r, Flags.none⟩
                             else .error (.diag "invalid initializer")
     | _, _ => .error (.diag "invalid initializer")
   | [] => .error (.diag "expected an expression")
@@ -357,6 +404,18 @@ def init (ty : Ty) (toks : List ITok) : Except Fail (Init × List ITok) :=
 def BraceOverride (ty : Ty) (toks : List ITok) : Bool :=
   match initFull ty toks with
   | .ok r => r.over
+  | .error _ => false
+
+/-- region: an initializer for a subobject inside a struct/union that was initialised by an expression of struct/union type -/
+def AggExprOverride (ty : Ty) (toks : List ITok) : Bool :=
+  match initFull ty toks with
+  | .ok r => r.fl.xover
+  | .error _ => false
+
+/-- region: a GNU range designator over more than one element -/
+def WideRange (ty : Ty) (toks : List ITok) : Bool :=
+  match initFull ty toks with
+  | .ok r => r.fl.wide
   | .error _ => false
 
 end ChibiVerif.InitSpec
